@@ -178,10 +178,19 @@ def run_case(case, res):
     else:
         tg = tm.einstein_targets(E.sympy)
 
+    # a contracted index is summed once over the whole *term*; a bracket is one
+    # object of the term (adcgen's Term/Polynom reading). Expanding first would
+    # give an index that survives in one addend of a bracket only another range.
     def val(ev_, x):
-        return tg, ev_.value(x.sympy, tg)
+        return tg, ev_.value_outer(x.sympy, tg)
     try:
         u0, v0 = val(ev, E)
+        if not np.array_equal(v0, ev.value(E.sympy, tg)):
+            # the two readings of a bracket (sum outside / expand first) differ
+            # on the input itself: its value is not defined without a convention
+            res.count('ambiguous_bracket_inputs')
+            res.skip('input value depends on the reading of a bracket')
+            return
         u1, v1 = val(ev, R)
     except tm.ModelUnusable:
         res.count('model_retry')
